@@ -52,6 +52,64 @@ type MsgSpec struct {
 	PSHash  string `json:"ps_hash"` // hex
 	TS      int64  `json:"ts"`      // votes
 	POL     int32  `json:"pol"`     // proposals
+	// votes, NilMode 0: NTSCount is SIGNED (low 16 bits of the part set id's app data);
+	// the NTS entries themselves (vote bases and proof parts) are NOT covered by the signature
+	NTSCount uint16   `json:"nts_count"`
+	NTS      []NTSEnt `json:"nts,omitempty"`
+}
+
+type NTSEnt struct {
+	ID    int64  `json:"id"`
+	Hash  string `json:"hash"`
+	Proof string `json:"proof"`
+}
+
+// the bytes a validator key signs, recomputed from the chosen fields only
+// (consensus.blockVoteByteser / proposal.bytes are not consulted)
+func (s MsgSpec) preImage() []byte {
+	type psid struct {
+		CountWord uint64
+		Hash      []byte
+	}
+	if s.Kind == "vote" {
+		v := struct {
+			Height    int64
+			Round     int32
+			Type      byte
+			BlockID   []byte
+			PSID      *psid
+			Timestamp int64
+		}{Height: s.Height, Round: s.Round, Type: s.VType, Timestamp: s.TS}
+		switch s.NilMode {
+		case 0:
+			v.BlockID = unhex(s.BlockID)
+			v.PSID = &psid{(uint64(s.NID)<<16|uint64(s.NTSCount))<<16 | uint64(s.PSCount), unhex(s.PSHash)}
+		case 1:
+			v.BlockID = codec.BC.MustMarshalToBytes(int64(s.NID))
+		}
+		return codec.BC.MustMarshalToBytes(&v)
+	}
+	ps := &psid{uint64(s.PSCount), unhex(s.PSHash)}
+	type psidP struct {
+		Count uint16
+		Hash  []byte
+	}
+	pp := &psidP{s.PSCount, ps.Hash}
+	if s.NID == 0 {
+		return codec.BC.MustMarshalToBytes(&struct {
+			Height   int64
+			Round    int32
+			PSID     *psidP
+			POLRound int32
+		}{s.Height, s.Round, pp, s.POL})
+	}
+	return codec.BC.MustMarshalToBytes(&struct {
+		Height   int64
+		Round    int32
+		PSID     *psidP
+		POLRound int32
+		NID      uint32
+	}{s.Height, s.Round, pp, s.POL, s.NID})
 }
 
 func (s MsgSpec) effNID() uint32 {
@@ -66,7 +124,7 @@ func (s MsgSpec) content() string {
 	if s.Kind == "vote" {
 		switch s.NilMode {
 		case 0:
-			return fmt.Sprintf("v|%d|%d|%d|bid=%s|ps=%d/%s|nid=%d|ts=%d", s.Height, s.Round, s.VType, s.BlockID, s.PSCount, s.PSHash, s.NID, s.TS)
+			return fmt.Sprintf("v|%d|%d|%d|bid=%s|ps=%d/%s|nid=%d|ntscount=%d|ts=%d", s.Height, s.Round, s.VType, s.BlockID, s.PSCount, s.PSHash, s.NID, s.NTSCount, s.TS)
 		case 1:
 			return fmt.Sprintf("v|%d|%d|%d|nilvote|nid=%d|ts=%d", s.Height, s.Round, s.VType, s.NID, s.TS)
 		default:
@@ -159,6 +217,12 @@ func build(s MsgSpec) (module.DoubleSignData, error) {
 			vs.PSCount = s.PSCount
 			vs.PSHash = unhex(s.PSHash)
 			vs.NID = s.NID
+			vs.NTSCount = s.NTSCount
+			for _, e := range s.NTS {
+				vs.NTSIDs = append(vs.NTSIDs, e.ID)
+				vs.NTSHashes = append(vs.NTSHashes, unhex(e.Hash))
+				vs.NTSProofs = append(vs.NTSProofs, unhex(e.Proof))
+			}
 		case 1:
 			vs.BlockID = codec.MustMarshalToBytes(int(s.NID))
 		default:
@@ -190,8 +254,13 @@ func coqKind(k string) string {
 }
 
 func coqMsg(v consensus.VerifView) string {
-	return fmt.Sprintf("(mkMsg %s %s %s %s %d %d %s %s)", coqB(v.Signer), hxlib.CoqZ(v.Height), hxlib.CoqZ(v.Round),
-		coqKind(v.Kind), v.VType, v.NID, coqB(v.Hash), hxlib.CoqZ(v.Cost))
+	var ext []byte
+	if len(v.Unsigned) > 0 {
+		h := sha256.Sum256(v.Unsigned)
+		ext = h[:8]
+	}
+	return fmt.Sprintf("(mkMsg %s %s %s %s %d %d %s %s %s)", coqB(v.Signer), hxlib.CoqZ(v.Height), hxlib.CoqZ(v.Round),
+		coqKind(v.Kind), v.VType, v.NID, coqB(v.Hash), hxlib.CoqZ(v.Cost), coqB(ext))
 }
 
 // the view must show the chosen fields (ties the Coq record to the specification)
@@ -208,6 +277,12 @@ func viewMatches(s MsgSpec, v consensus.VerifView) string {
 		return "vote type differs from the signed one"
 	case v.NID != s.effNID():
 		return fmt.Sprintf("network id read back as %d, message was built for %d", v.NID, s.effNID())
+	case !bytes.Equal(v.PreImage, s.preImage()):
+		return fmt.Sprintf("the signed bytes %x are not the encoding of the fields the signature is meant to cover %x", v.PreImage, s.preImage())
+	case !bytes.Equal(v.Hash, crypto.SHA3Sum256(s.preImage())):
+		return "hash() is not the SHA3-256 of the signed bytes"
+	case (len(s.NTS) == 0) != (len(v.Unsigned) == 0):
+		return "unsigned attachments lost or invented"
 	}
 	return ""
 }
@@ -275,8 +350,13 @@ func oraclePair(in PairIn) (coq string, msg string) {
 	}
 	why := whyNotGenuine(in.A, in.B)
 	exp := len(why) == 0
+	sameSigned := bytes.Equal(va.PreImage, vb.PreImage) && bytes.Equal(va.Signer, vb.Signer) && va.Kind == vb.Kind
 	if msg == "" {
 		switch {
+		case (ab || ba) && sameSigned:
+			msg = fmt.Sprintf("IsConflictWith reports a conflict between two messages of one signer whose signed bytes are identical (%x); they differ only in parts the signature does not cover", va.PreImage)
+		case sameSigned != (in.A.Kind == in.B.Kind && in.A.Signer == in.B.Signer && in.A.content() == in.B.content()):
+			msg = "harness: signed bytes and chosen signed fields disagree on equality"
 		case ab && !exp:
 			msg = "IsConflictWith reports a conflict for a pair that is not a genuine double sign: " + strings.Join(why, "; ")
 		case ba && !exp:
@@ -928,13 +1008,34 @@ func randSpec(r *rand.Rand, kind string) MsgSpec {
 		if s.NilMode != 0 {
 			s.BlockID, s.PSHash, s.PSCount = "", "", 0
 		}
+		if s.NilMode == 0 && s.VType == 1 && r.Intn(2) == 0 {
+			s = withNTS(r, s, 1+r.Intn(2))
+		}
 	} else {
 		s.POL = int32(r.Intn(int(s.Round)+1)) - 1
 	}
 	return s
 }
 
-var voteFields = []string{"kind", "signer", "height", "round", "vtype", "nid", "blockid", "psid", "ts"}
+// a precommit with n unsigned NTS entries (count signed in the app data)
+func withNTS(r *rand.Rand, s MsgSpec, n int) MsgSpec {
+	s.VType, s.NilMode = 1, 0
+	if s.BlockID == "" {
+		s.BlockID = hexRand(r, 32)
+	}
+	if s.PSCount == 0 {
+		s.PSCount, s.PSHash = 1, hexRand(r, 32)
+	}
+	s.NTS = nil
+	for i := 0; i < n; i++ {
+		s.NTS = append(s.NTS, NTSEnt{ID: int64(1 + i), Hash: hexRand(r, 32), Proof: hexRand(r, 1+r.Intn(6))})
+	}
+	s.NTSCount = uint16(n)
+	return s
+}
+
+// "ntsbase" and "ntsproof" change only what the vote signature does NOT cover
+var voteFields = []string{"kind", "signer", "height", "round", "vtype", "nid", "blockid", "psid", "ts", "ntsbase", "ntsproof"}
 var propFields = []string{"kind", "signer", "height", "round", "nid", "psid", "pol"}
 
 // mutate returns a copy of s that differs in the named field
@@ -1000,6 +1101,25 @@ func mutate(r *rand.Rand, s MsgSpec, field string) MsgSpec {
 				s.PSCount = 1
 			}
 		}
+	case "ntsbase", "ntsproof":
+		if s.Kind != "vote" || s.NilMode != 0 {
+			return s
+		}
+		nts := append([]NTSEnt(nil), s.NTS...)
+		if len(nts) == 0 { // attach an entry the signature knows nothing about
+			nts = append(nts, NTSEnt{ID: 1, Hash: hexRand(r, 32), Proof: hexRand(r, 2)})
+		} else {
+			k := r.Intn(len(nts))
+			switch {
+			case field == "ntsproof":
+				nts[k].Proof = hexRand(r, 1+r.Intn(6)) + "01"
+			case r.Intn(3) == 0:
+				nts[k].ID += 1 + int64(r.Intn(5))
+			default:
+				nts[k].Hash = hexRand(r, 32)
+			}
+		}
+		s.NTS = nts
 	case "ts":
 		s.TS += int64(1 + r.Intn(1000))
 	case "pol":
@@ -1134,6 +1254,9 @@ func gen(ctx *hxlib.Ctx) {
 		}
 		for bi := 0; bi < bases; bi++ {
 			base := randSpec(r, kind)
+			if kind == "vote" && bi%2 == 1 {
+				base = withNTS(r, base, 1+bi/2%2)
+			}
 			if bi == 0 { // two different non-zero networks are reachable from this base
 				base.NID, base.NilMode = 3, 0
 				if kind == "vote" {
@@ -1170,6 +1293,7 @@ func gen(ctx *hxlib.Ctx) {
 		}
 		if a.NilMode == 1 {
 			a.BlockID, a.PSHash, a.PSCount = "", "", 0
+			a.NTS, a.NTSCount = nil, 0
 		}
 		b := a
 		if kind == "vote" {
@@ -1302,6 +1426,11 @@ func genLog(r *rand.Rand, voteCost, propCost, i int) LogIn {
 			}
 			pool = append(pool, v)
 		}
+		if kind == "vote" && base.NilMode == 0 && r.Intn(2) == 0 {
+			// one signed precommit, its unsigned NTS part rewritten: same signed bytes
+			pc := withNTS(r, base, 1+r.Intn(2))
+			pool = append(pool, pc, mutate(r, pc, "ntsbase"), mutate(r, pc, "ntsproof"), mutate(r, pc, "ts"))
+		}
 		if kind == "vote" { // the other vote type of the same signer/height/round
 			o := base
 			o.VType ^= 1
@@ -1365,7 +1494,14 @@ func genReport(r *rand.Rand, i int) ReportIn {
 	if kind == "proposal" {
 		fields = propFields
 	}
-	switch r.Intn(8) {
+	switch (r.Intn(8) + i) % 8 {
+	case 2: // one signed precommit with rewritten unsigned attachments: different bytes, same signed content
+		if kind == "vote" {
+			a = withNTS(r, a, 1+r.Intn(2))
+			b = mutate(r, a, []string{"ntsbase", "ntsproof"}[r.Intn(2)])
+		} else {
+			b = mutate(r, b, "psid")
+		}
 	case 0: // some non-conflicting variation
 		b = mutate(r, b, fields[r.Intn(len(fields))])
 	case 1:
